@@ -3,6 +3,8 @@ package c08
 
 import (
 	"fmt"
+	"os"
+	"path/filepath"
 	"sort"
 	"strconv"
 	"strings"
@@ -40,6 +42,16 @@ type Case struct {
 	CrashPoint string `json:"crash_point,omitempty"`
 	CrashNth   int    `json:"crash_nth,omitempty"`
 	CrashNodes []int  `json:"crash_nodes,omitempty"`
+	// KillRest: after the armed nodes died, the remaining nodes are killed as well, the armed ones are
+	// restarted first and must serve on their own (they are a majority) before the rest comes back: an
+	// entry that was acknowledged on the strength of their replies must have been durable on them.
+	KillRest bool `json:"kill_rest,omitempty"`
+	// ArmAtMs > 0: the crash point is armed at run time (hook H4, file form) on all CrashNodes at once,
+	// ArmAtMs milliseconds into the load, instead of at their start.
+	ArmAtMs int `json:"arm_at_ms,omitempty"`
+	// LingerMs: the node stays at the crash point this long before it dies (a slow disk or a pause at
+	// that spot); messages it has already handed to the transport get out in the meantime.
+	LingerMs int `json:"linger_ms,omitempty"`
 }
 
 var crashPoints = []string{"ready-start", "before-wal-save", "after-wal-save", "after-append", "after-send", "after-publish", "before-advance",
@@ -62,6 +74,12 @@ func genPointCase(t *rapid.T) Case {
 	default:
 		a := 1 + rapid.IntRange(0, 2).Draw(t, "a")
 		c.CrashNodes = []int{a, 1 + a%3}
+		c.KillRest = rapid.Bool().Draw(t, "killrest")
+	}
+	c.LingerMs = rapid.SampledFrom([]int{0, 0, 5, 15}).Draw(t, "linger")
+	if rapid.IntRange(0, 2).Draw(t, "armlate") > 0 {
+		c.ArmAtMs = rapid.SampledFrom([]int{5, 20, 60}).Draw(t, "armat")
+		c.CrashNth = rapid.SampledFrom([]int{1, 1, 2, 3}).Draw(t, "armnth")
 	}
 	p := Phase{PerWriter: rapid.SampledFrom([]int{10, 25}).Draw(t, "per"), Kinds: "all", Kill: c.CrashNodes, Restart: rapid.Permutation(c.CrashNodes).Draw(t, "restart")}
 	nw := rapid.IntRange(2, 4).Draw(t, "writers")
@@ -136,18 +154,20 @@ func execCase(c Case) kit.Outcome {
 	if c.SnapCount > 0 {
 		env = append(env, "VERIF_SNAPCOUNT="+strconv.Itoa(c.SnapCount), "VERIF_CATCHUP="+strconv.Itoa(c.CatchUp))
 	}
-	cl, err := srv.StartCluster(srv.ClusterOptions{Size: 3, Env: env})
+	cl, err := srv.StartCluster(srv.ClusterOptions{Size: 3, Env: env, NodeEnv: func(id int, dir string) []string {
+		return []string{"VERIF_CRASH_FILE=" + filepath.Join(dir, "crash-now")}
+	}})
 	if err != nil {
 		return kit.Outcome{Fail: "infrastructure: " + err.Error()}
 	}
 	defer cl.Stop()
 	o := kit.Outcome{Labels: []string{fmt.Sprintf("snapcount:%d", c.SnapCount)}}
-	if c.CrashPoint != "" {
+	if c.CrashPoint != "" && c.ArmAtMs == 0 {
 		// re-start the targeted nodes with the self-kill armed (counts start at their restart)
 		o.Labels = append(o.Labels, "crashpoint:"+c.CrashPoint)
 		for _, n := range c.CrashNodes {
 			cl.Kill(n)
-			cl.SetNodeEnv(n, []string{fmt.Sprintf("VERIF_CRASH=%s:%d", c.CrashPoint, c.CrashNth)})
+			cl.SetNodeEnv(n, []string{fmt.Sprintf("VERIF_CRASH=%s:%d:%d", c.CrashPoint, c.CrashNth, c.LingerMs)})
 			if err := cl.StartNode(n); err != nil {
 				return kit.Outcome{Fail: "infrastructure: " + err.Error()}
 			}
@@ -237,6 +257,12 @@ func execCase(c Case) kit.Outcome {
 			}
 		}
 		if c.CrashPoint != "" && pi == 0 {
+			if c.ArmAtMs > 0 {
+				time.Sleep(time.Duration(c.ArmAtMs) * time.Millisecond)
+				for _, n := range c.CrashNodes {
+					_ = os.WriteFile(filepath.Join(cl.Nodes[n-1].Dir, "crash-now"), []byte(fmt.Sprintf("%s:%d:%d", c.CrashPoint, c.CrashNth, c.LingerMs)), 0o644)
+				}
+			}
 			wg.Wait()
 			died := 0
 			for _, n := range p.Kill {
@@ -244,6 +270,7 @@ func execCase(c Case) kit.Outcome {
 					died++
 				}
 				cl.SetNodeEnv(n, nil) // the restart runs without the self-kill
+				_ = os.Remove(filepath.Join(cl.Nodes[n-1].Dir, "crash-now"))
 			}
 			kit.C.Label(fmt.Sprintf("crashpoint-nodes-that-died:%d-of-%d", died, len(p.Kill)), 1)
 			kill()
@@ -257,11 +284,40 @@ func execCase(c Case) kit.Outcome {
 		}
 		close(stop)
 		seq++
+		var rest []int
+		if c.CrashPoint != "" && c.KillRest && pi == 0 {
+			for n := 1; n <= 3; n++ {
+				armed := false
+				for _, a := range c.CrashNodes {
+					if a == n {
+						armed = true
+					}
+				}
+				if !armed {
+					cl.Kill(n)
+					rest = append(rest, n)
+				}
+			}
+		}
 		for _, n := range p.Restart {
 			if err := cl.StartNode(n); err != nil {
 				return kit.Outcome{Fail: "infrastructure: restart: " + err.Error()}
 			}
 			time.Sleep(50 * time.Millisecond)
+		}
+		if len(rest) > 0 {
+			// the restarted majority must come back on its own before the others return
+			if err := cl.WaitServing(40*time.Second, p.Restart); err != nil {
+				o.Inconclusive = true
+				o.Labels = append(o.Labels, "majority-not-serving-alone")
+				return o
+			}
+			o.Labels = append(o.Labels, "majority-restarted-first")
+			for _, n := range rest {
+				if err := cl.StartNode(n); err != nil {
+					return kit.Outcome{Fail: "infrastructure: restart: " + err.Error()}
+				}
+			}
 		}
 		// the cluster must serve again; a node that died with a panic is a violation, mere slowness is not
 		if err := cl.WaitServing(40*time.Second, []int{1, 2, 3}); err != nil {
